@@ -22,7 +22,7 @@ GUARD_B = "variant(try(Regex::check_matches_empty_string(a1)))=Break"
 PROP = "propagate(try(Regex::check_matches_empty_string(a1)) as Break.0)"
 
 
-@rule("API-GUARD", ["C16", "C04", "C06"], floor=6)
+@rule("API-GUARD", ["C16", "C04", "C06", "C15", "C02", "C03", "C13"], floor=6)
 def api_guard(ctx):
     """replace_all and analyze create a matcher only after check_matches_empty_string() succeeded; tokenize does so
     too except for the empty input, for which it yields the exhausted iterator (prev_end = None). A failed check is
@@ -64,9 +64,11 @@ def api_guard(ctx):
     return _emit(d)
 
 
-@rule("API-FLAG-PROV", ["C16", "C18", "C17"], floor=6)
+@rule("API-FLAG-PROV", ["C16", "C18", "C17", "C01", "C02", "C03", "C04", "C05", "C06", "C07", "C08", "C09", "C10", "C11", "C12", "C13", "C14", "C15", "C19", "C20"], floor=6)
 def api_flag_prov(ctx):
-    """Regex::new: flags parsed with the dialect, pattern converted by chars(), program compiled, and
+    """The public entry points are faithful wrappers of the engine (a necessary condition of every property, since
+    every property is observed through them - a "fast path" in Regex::new or is_match bypasses whatever the other
+    rules establish). Regex::new: flags parsed with the dialect, pattern converted by chars(), program compiled, and
     matches_empty_string = is_match of a fresh matcher of the *same* program on the empty string; xpath/xsd pass
     their dialect; a matcher is ReMatcher::new(&re_program, haystack) with a fresh State."""
     d = {}
